@@ -90,7 +90,8 @@ def _operand_class(op: dict) -> str:
     return "atoms" if all(" and " not in t and " or " not in t for t in texts) else "compound"
 
 
-def _b2_chunk(states):
+def _b2_chunk(args):
+    states, cold_map = args
     fails, n, drift = [], 0, 0
     for st in states:
         hist = [{"kind": o["kind"], "x": atom_text(o["x"]), "y": atom_text(o["y"])} for o in st["hist"]]
@@ -100,10 +101,13 @@ def _b2_chunk(states):
             for o in hist[:-1]:
                 run_op(o)
             warm = observe(run_op(hist[-1]))
-            drive_marker.clear_caches()
-            cold = observe(run_op(hist[-1]))
+            c = cold_map[json.dumps(hist[-1], sort_keys=True)]
+            cold = (c[0], c[1])
         except Exception as e:  # noqa: BLE001
             fails.append((f"C10:b2:raises-{type(e).__name__}", repr(e), {"history": hist}))
+            continue
+        if cold[0].startswith("!"):
+            fails.append((f"C10:b2:cold-raises-{cold[0][1:]}", f"{hist[-1]} raises from empty caches", {"history": hist}))
             continue
         text_ok, meaning_ok, cls = compare(warm, cold)
         spec_text_ok, spec_meaning_ok = bool(st["last"]["text_ok"]), bool(st["last"]["meaning_ok"])
@@ -232,6 +236,36 @@ print(json.dumps(out))
 '''
 
 
+ONE_SCRIPT = r'''
+import json, sys
+sys.path.insert(0, "/verif")
+from harness import check_memo
+op = json.loads(sys.argv[1])
+try:
+    t, tab = check_memo.observe(check_memo.run_op(op))
+    print(json.dumps([t, tab]))
+except Exception as e:
+    print(json.dumps(["!" + type(e).__name__, []]))
+'''
+
+
+def _cold_one(op: dict):
+    p = subprocess.run([sys.executable, "-c", ONE_SCRIPT, json.dumps(op)], capture_output=True, text=True, timeout=120)
+    if p.returncode != 0:
+        raise tla.MachineryError("cold interpreter failed: " + p.stderr[-400:])
+    t, tab = json.loads(p.stdout.strip().splitlines()[-1])
+    return t, tab
+
+
+def cold_results(ops: list[dict]) -> dict:
+    """Each distinct operation alone in a NEW interpreter: the definition of 'cold' in the statement."""
+    from concurrent.futures import ThreadPoolExecutor
+    uniq = {json.dumps(o, sort_keys=True): o for o in ops}
+    with ThreadPoolExecutor(16) as ex:
+        vals = list(ex.map(_cold_one, uniq.values()))
+    return dict(zip(uniq.keys(), vals))
+
+
 def _fresh_interpreter_chunk(args):
     """Thorough: the cold run of each probed position happens in a NEW interpreter."""
     seeds, length = args
@@ -309,7 +343,10 @@ def run(pid: str, tier: str, replay: str | None = None) -> int:
         shutil.rmtree(tmp, ignore_errors=True)
     total = 0
     drift = 0
-    for n, fails, dr in _pmap(_b2_chunk, _split(states)):
+    probes = [{"kind": st["hist"][-1]["kind"], "x": atom_text(st["hist"][-1]["x"]), "y": atom_text(st["hist"][-1]["y"])} for st in states]
+    cold_map = cold_results(probes)
+    rep.count("b2_distinct_probes_cold_in_fresh_interpreter", len(cold_map))
+    for n, fails, dr in _pmap(_b2_chunk, [(ch, cold_map) for ch in _split(states)]):
         total += n
         drift += dr
         for f in fails:
@@ -331,12 +368,12 @@ def run(pid: str, tier: str, replay: str | None = None) -> int:
     rep.count("b3_random_histories", nh)
     rep.count("skipped_timeout", skipped)
     rep.sample({"binding": "B3", "history": gen_history(seeds[0], 6)})
-    if thorough:
-        for n, fails in _pmap(_fresh_interpreter_chunk, [(ch, 12) for ch in _split(seeds[:800], 16)]):
-            total += n
-            for f in fails:
-                rep.violation(*f)
-        rep.count("fresh_interpreter_histories", 800)
+    nfresh = 800 if thorough else 120
+    for n, fails in _pmap(_fresh_interpreter_chunk, [(ch, 12) for ch in _split(seeds[:nfresh], 16)]):
+        total += n
+        for f in fails:
+            rep.violation(*f)
+    rep.count("fresh_interpreter_histories", nfresh)
     rep.add("traces_validated_against_impl", total)
     rep.set(rule="B2: every history of <= 3 operations of the MemoCache model (probe = last operation) run warm and cold on the real library; "
                  "B3: random histories (operands incl. mirrored spellings, '3.10' vs '3.10.0', library-rendered results), every position probed against a cold run",
